@@ -343,8 +343,40 @@ def _shard(run, n, steps, shard):
     run.machine('contexts', make_machine(run), n, steps, shard=shard)
 
 
+def directed_histories(pads):
+    """members of a multi-context that have different parents which define
+    the same names: roots (after `pad` unrelated ones, so that the objects
+    land at other addresses) each set a variable and register a function,
+    one child per root, a multi-context over the children in every order,
+    then a child of it and a linked context over it"""
+    import itertools
+    for pad in pads:
+        for k in (2, 3):
+            for perm in itertools.permutations(range(k)):
+                ops = [['root', False] for _ in range(pad)]
+                ops += [['root', False] for _ in range(k)]
+                for j in range(k):
+                    ops.append(['set', pad + j, '$x', j])
+                    ops.append(['set', pad + j, 'x', 'abc'[j]])
+                    ops.append(['reg', pad + j, 'f', False, False])
+                ops += [['child', pad + j] for j in range(k)]
+                ops.append(['multi', [pad + k + j for j in perm]])
+                multi = pad + 2 * k
+                ops.append(['child', multi])
+                ops.append(['linked', pad, multi])
+                ops.append(['set', multi, '$zz', 1])
+                yield {'kind': 'history', 'ops': ops}
+
+
+def _directed_shard(run, pads):
+    for case in directed_histories(pads):
+        run_history(run, case)
+
+
 def run(run):
     full = run.tier == 'thorough'
+    pads = list(range(0, 32 if full else 12))
+    run.shards(_directed_shard, [(pads[i::4],) for i in range(4)])
     k = 16
     n = (12000 if full else 1600) // k
     steps = 60 if full else 30
